@@ -33,3 +33,30 @@ def flowseq_empty_key_text(text):
 
 def c09_flowseq_empty_key(case, detail):
     return detail.startswith('c ') and flowseq_empty_key_text(case.get('input'))
+
+import re as _re
+
+
+def c06_block_header_comment(case, detail):
+    """'|#' / '>#': a comment glued to a block scalar header. Python scanner rejects, libyaml accepts."""
+    t = case.get('input')
+    return (isinstance(t, str) and _re.search(r'[|>][-+0-9]*#', t) is not None
+            and "expected chomping or indentation indicators, but found '#'" in detail and 'c=accepts' in detail)
+
+
+def c06_flow_question(case, detail):
+    """'?' glued to other characters inside a flow collection: libyaml 0.2.5 always makes it a KEY indicator when it
+    starts a token, never ends a plain scalar at it, and skips the token after an empty flow-sequence key."""
+    t = case.get('input')
+    if not (isinstance(t, str) and '?' in t and ('[' in t or '{' in t)):
+        return False
+    if "but got '?'" in detail and 'c=accepts' in detail:
+        return True
+    return flowseq_empty_key_text(t)
+
+
+def c06_flow_colon_glued(case, detail):
+    """'{a:}' / '[a:]': ':' directly followed by a flow indicator after a plain scalar. libyaml: "found unexpected ':'"; Python accepts."""
+    t = case.get('input')
+    return (isinstance(t, str) and _re.search(r':[\]\}\[\{,]', t) is not None and "found unexpected ':'" in detail
+            and 'py=accepts' in detail)
